@@ -472,6 +472,38 @@ theorem unsetElem_fr {n : Sizes} {g : Grows} {r : Runner} {h h' : Heap} {name : 
     · cases e; exact HeapFr.refl inv.le
   · cases e; exact HeapFr.refl inv.le
 
+theorem elemBase_fr {n : Sizes} (g : Grows) (h : Heap) (vr : Var) (hn : n.le h) :
+    HeapFr n h (elemBase g h vr).1 ∧ Owned n.strs (elemBase g h vr).2.1 ∧ Owned n.ints (elemBase g h vr).2.2 := by
+  have c := cloneBoth_fr g h vr.list vr.indexes hn
+  unfold elemBase
+  split
+  · have m := sliceMake_fr (n := n.strs) (cloneBoth g h vr.list vr.indexes).1.strs [vr.str] 1 c.1.le.1
+    exact ⟨c.1.trans (HeapFr.of_strs c.1.le m.1), m.2, Owned.nil _⟩
+  · exact c
+
+theorem assignElem_fr {n : Sizes} {g : Grows} {r : Runner} {h h' : Heap} {name val : Bytes} {vr : Var}
+    {idx : Option Int} (inv : Inv n r h) (e : assignElem g r h name vr idx val = some h') : HeapFr n h h' := by
+  unfold assignElem at e
+  split at e
+  · exact setVar_fr inv e
+  · split at e
+    · split at e
+      · cases e; exact HeapFr.refl inv.le
+      · have h1 := cloneOrMake_fr (n := n.maps) h.maps vr.map inv.le.2.2.1
+        have key : ∀ f : List (Bytes × Bytes) → List (Bytes × Bytes), HeapFr n h
+            { h with maps := updMap (cloneOrMake h.maps vr.map).1 (cloneOrMake h.maps vr.map).2 f } :=
+          fun f => HeapFr.of_maps inv.le (h1.1.trans (updMap_fr _ f h1.1.1 h1.2))
+        exact (key _).trans (setVar_fr (inv.step (key _)) e)
+    · split at e
+      · cases e; exact HeapFr.refl inv.le
+      · split at e
+        · cases e
+        · next x hx =>
+          have b := elemBase_fr g h vr inv.le
+          have h2 := setIndexedElem_fr (h' := x.1) (l' := x.2.1) (ix' := x.2.2) b.1.le b.2.1 b.2.2 hx
+          have f := b.1.trans h2.1
+          exact f.trans (setVar_fr (inv.step f) e)
+
 /-! ### step -/
 
 theorem Inv.runner {n : Sizes} {r r' : Runner} {h : Heap} (inv : Inv n r h) (h1 : r'.env = r.env)
@@ -613,6 +645,18 @@ theorem step_inv {n : Sizes} {fx : Bool} {g : Grows} {h : Heap} {r : Runner} {op
           have f2 := setVar_fr (inv.step f1) hh1
           have f3 := setVar_fr ((inv.step f1).step f2) hh2
           exact ⟨(f1.trans f2).trans f3, inv.step ((f1.trans f2).trans f3)⟩
+  | paramAssign name idx colon val =>
+    simp only [step] at e
+    split at e
+    · cases e; exact ⟨HeapFr.refl inv.le, inv⟩
+    · split at e
+      · split at e
+        · cases e
+        · next h' hh => cases e; exact ⟨assignElem_fr inv hh, inv.step (assignElem_fr inv hh)⟩
+      · cases e; exact ⟨HeapFr.refl inv.le, inv⟩
+  | nop =>
+    simp only [step] at e
+    cases e; exact ⟨HeapFr.refl inv.le, inv⟩
   | unset mode name sub =>
     simp only [step] at e
     split at e
